@@ -28,7 +28,7 @@ def sh(cmd, env=None, timeout=2400):
     return p.returncode, p.stdout + p.stderr
 
 
-def evaluate(name, run_all=False, tier="quick"):
+def evaluate(name, run_all=False, tier="quick", vseed=None):
     d = os.path.join(SEEDED, name)
     meta = json.load(open(os.path.join(d, "meta.json")))
     s = os.path.join(SCRATCH, name)
@@ -43,6 +43,8 @@ def evaluate(name, run_all=False, tier="quick"):
         shutil.rmtree(s, ignore_errors=True)
         return res
     env = dict(os.environ, PYTHONPATH=s, VERIF_REPO=s + "/", PYTHONHASHSEED="0")
+    if vseed is not None:
+        env["VERIF_SEED"] = str(vseed)
     rc, out = sh("cd %s && /venv/bin/python -m pytest -q -p no:cacheprovider --timeout=900 --continue-on-collection-errors gffutils 2>&1 | tail -1" % s, env)
     res["tests"] = out.strip().splitlines()[-1] if out.strip() else "?"
     res["tests_unchanged"] = " 74 passed" in " " + res["tests"] and "2 failed" in res["tests"]
@@ -70,18 +72,28 @@ def main():
     tier = "quick"
     if "--tier" in args:
         tier = args[args.index("--tier") + 1]
+    vseed = None
+    if "--seed" in args:
+        vseed = int(args[args.index("--seed") + 1])
+        args = [a for i, a in enumerate(args) if a != "--seed" and (i == 0 or args[i - 1] != "--seed")]
     names = [a for a in args if not a.startswith("--") and a not in ("quick", "thorough")]
     if not names:
         names = sorted(n for n in os.listdir(SEEDED) if os.path.isdir(os.path.join(SEEDED, n)))
     os.makedirs(SCRATCH, exist_ok=True)
     results = []
     for n in names:
-        r = evaluate(n, run_all, tier)
+        r = evaluate(n, run_all, tier, vseed)
         results.append(r)
         print("%-28s %-4s tests:%s demo(with/without):%s/%s caught_by:%s" % (
             n, r["property"], "same" if r.get("tests_unchanged") else r.get("tests", r.get("status")),
             "fails" if r.get("demo_fails_with_change") else "PASSES", "passes" if r.get("demo_passes_without") else "FAILS",
             r.get("caught_by")))
+    if vseed is not None:
+        with open(os.path.join(SEEDED, "results_seed%d.json" % vseed), "w") as fh:
+            json.dump([{"name": r["name"], "property": r["property"], "caught_by": r.get("caught_by")} for r in results], fh, indent=1)
+        missed = [r["name"] for r in results if not r.get("caught_by")]
+        print("VERIF_SEED=%d: %d of %d caught; missed: %s" % (vseed, len(results) - len(missed), len(results), missed))
+        return 0
     old = {}
     if os.path.exists(os.path.join(SEEDED, "results.json")):
         old = dict((r["name"], r) for r in json.load(open(os.path.join(SEEDED, "results.json"))))
